@@ -90,6 +90,7 @@ type Record struct {
 	Violations   []Violation    `json:"violations,omitempty"`
 	Plan         *Plan          `json:"plan,omitempty"` // with the executed schedule, when there is a violation (or on request)
 	Sample       string         `json:"sample,omitempty"`
+	BaseDigests  [][]uint64     `json:"base_digests,omitempty"` // per task / operation: hash of the sequential outcome (0 = noisy, too slow or missing)
 	NoisyOps     []string       `json:"noisy_ops,omitempty"`
 	SlowOps      []string       `json:"slow_ops,omitempty"`
 	NoisyDiff    string         `json:"noisy_diff,omitempty"`
@@ -698,6 +699,46 @@ func (x *execution) baselines() {
 		}
 	}
 	x.b1 = b1
+	rec.BaseDigests = make([][]uint64, len(b1))
+	for t := range b1 {
+		rec.BaseDigests[t] = make([]uint64, len(b1[t]))
+		for o := range b1[t] {
+			if !x.noisy[[2]int{t, o}] && !x.slow[[2]int{t, o}] {
+				rec.BaseDigests[t][o] = Hash64(b1[t][o].dump) | 1
+			}
+		}
+	}
+}
+
+// ColdOrderRun is the other half of the cold-order oracle: in a FRESH process the
+// operations of a run are executed sequentially, last task first, before anything
+// else has touched the library. The driver compares the digests with the sequential
+// outcomes of the main exploration (where another task's operation came first):
+// state that is set up once by whoever calls first, from that caller's arguments,
+// shows up as a difference.
+func ColdOrderRun(p *Plan) *Record {
+	rec := &Record{Index: p.Index, RunSeed: p.RunSeed, Kind: p.Kind, Mode: p.Mode, NTasks: len(p.Tasks), Faults: map[string]int{}}
+	slow := map[[2]int]bool{}
+	rev := baseline(p, slow, true)
+	for t := range rev {
+		for o := range rev[t] {
+			if rev[t][o].yields > maxBaselineYields {
+				slow[[2]int{t, o}] = true
+			}
+		}
+	}
+	rec.BaseDigests = make([][]uint64, len(rev))
+	for t := range rev {
+		rec.BaseDigests[t] = make([]uint64, len(rev[t]))
+		for o := range rev[t] {
+			if !slow[[2]int{t, o}] {
+				rec.BaseDigests[t][o] = Hash64(rev[t][o].dump) | 1
+			}
+		}
+	}
+	ex := *p
+	rec.Plan = &ex
+	return rec
 }
 
 // simulate runs the tasks under the scheduler. totals == nil: cold-first run,
